@@ -312,17 +312,28 @@ fn parse_cron_part(
             }
             values.extend((min..=max).step_by(step as usize));
         } else if part.contains('-') {
+            // In a range, Sunday can also be written as 7 (e.g. `5-7` is Friday to Sunday)
+            let is_day_of_week = cron_type == &CronPartType::DayOfWeek;
+            let parse_range_value = |value: &str| -> Result<u8, String> {
+                if is_day_of_week && value == "7" {
+                    Ok(7)
+                } else {
+                    parse_value(value, cron_type)
+                }
+            };
+            let range_max = if is_day_of_week { 7 } else { max };
+
             let mut range_parts = part.split('-');
             let start = range_parts.next().unwrap_or_default();
             if start.is_empty() {
                 return Err("Can't find start number of range".to_string());
             }
-            let start = parse_value(start, cron_type)?;
+            let start = parse_range_value(start)?;
             let end = range_parts.next().unwrap_or_default();
             if end.is_empty() {
                 return Err("Can't find end number of range".to_string());
             }
-            let end = parse_value(end, cron_type)?;
+            let end = parse_range_value(end)?;
             if range_parts.next().is_some() {
                 return Err(format!(
                     "A range has to consist of exactly one start and one end value: {}",
@@ -336,14 +347,15 @@ fn parse_cron_part(
               );
             }
 
-            if start < min || end > max {
+            if start < min || end > range_max {
                 return Err(format!(
                     "Only numbers between {} and {} are allowed",
-                    min, max
+                    min, range_max
                 ));
             }
 
-            values.extend(start..=end);
+            values
+                .extend((start..=end).map(|value| if is_day_of_week { value % 7 } else { value }));
         } else {
             let value = parse_value(part, cron_type)?;
 
